@@ -64,6 +64,11 @@ func fillOptsFor(k int) gen.MsgOpts {
 }
 
 func runC03(c *core.Ctx, b core.Batch) {
+	if b.Cfg == "base" && b.N == 0 {
+		for i, e := range []string{"goproto.proto.test.TestAllExtensions", "goproto.proto.testeditions.TestAllExtensions", "hybrid.goproto.proto.testeditions.TestAllExtensions", "opaque.goproto.proto.testeditions.TestAllExtensions"} {
+			c03LocalResolver(c, e, i)
+		}
+	}
 	types := shard(codecTypes(b), b.N, nbOf(b, c.Tier))
 	per := c.Scale(24, 300)
 	if b.Cfg != "base" {
